@@ -201,11 +201,27 @@ func runC07(out, tier string, seed int64, _ []string) {
 	_ = sortProg
 	var sIdx, pIdx []interface{}
 	fmt.Fprintln(w, "Definition S : list (list value * list value * list value) := [")
+	// directed inputs first: arrays whose lengths differ by two and more, in both orders
+	arrOf := func(n int) core.Value {
+		for _, v := range U {
+			if a, ok := v.(*values.Array); ok && int(a.Length()) == n {
+				return v
+			}
+		}
+		return values.NewArray(0)
+	}
+	a0, a1, a2, a3 := arrOf(0), arrOf(1), arrOf(2), arrOf(3)
+	directedSort := [][]core.Value{{a3, a1}, {a1, a3}, {a3, a0, a2}, {a0, a3, a1, a2}, {a3, a3, a0}, {a2, a0},
+		{values.NewArrayWith(a3), values.NewArrayWith(a1)}, {values.NewArrayWith(a0), values.NewArrayWith(a3), values.NewArrayWith(a2)}}
 	for k := 0; k < nSort; k++ {
 		n := rng.Intn(7)
 		in := make([]core.Value, n)
 		for i := range in {
 			in[i] = U[rng.Intn(len(U))]
+		}
+		if k < len(directedSort) {
+			in = directedSort[k]
+			n = len(in)
 		}
 		inArr := values.NewArrayWith(in...)
 		o1 := sortViaQuery(c, inArr)
